@@ -376,28 +376,45 @@ func init() {
 
 // ---- k8s.io/apimachinery/pkg/util/sets.String: a Go map[string]Empty, modelled with the ordinary map heaps ----
 func init() {
-	pfx := "(k8s.io/apimachinery/pkg/util/sets.String)."
+	regSetModels("k8s.io/apimachinery/pkg/util/sets.NewString", "(k8s.io/apimachinery/pkg/util/sets.String).")
+	// the generic sets.Set[T] (also a map[T]Empty)
+	regSetModels("k8s.io/apimachinery/pkg/util/sets.New[T comparable]", "(k8s.io/apimachinery/pkg/util/sets.Set[T]).")
+	libModels["k8s.io/apimachinery/pkg/util/sets.New"] = libModels["k8s.io/apimachinery/pkg/util/sets.New[T comparable]"]
+}
+
+func regSetModels(newName, pfx string) {
 	mapT := func(c *ssa.CallCommon, i int) *types.Map {
 		mt, _ := c.Args[i].Type().Underlying().(*types.Map)
 		return mt
 	}
 	emptyVal := func(x *FnExec, mt *types.Map) string { return x.q.zero(mt.Elem()) }
-	regLib("k8s.io/apimachinery/pkg/util/sets.NewString", func(x *FnExec, fr *frame, n *node, in ssa.Instruction, c *ssa.CallCommon, args []Val, reach, hint string) (Val, error) {
+	regLib(newName, func(x *FnExec, fr *frame, n *node, in ssa.Instruction, c *ssa.CallCommon, args []Val, reach, hint string) (Val, error) {
 		rt := resultType(in, c)
 		mt := rt.Underlying().(*types.Map)
 		r := x.freshRef(n.st, "set", reach)
 		x.mapInit(n.st, mt, r)
 		if k, ok := x.constLen(c.Args[0]); ok && k <= 8 {
-			hn, hs := x.elemHeap(types.Typ[types.String])
+			hn, hs := x.elemHeap(mt.Key())
 			for j := int64(0); j < k; j++ {
 				el := sel(sel(x.heapGet(n.st, hn, hs), "(s_arr "+args[0].S+")"), x.arith("+", "(s_off "+args[0].S+")", x.ilit(j), tInt))
 				x.mapStore(n.st, mt, r, el, emptyVal(x, mt))
 			}
 		} else if cst, isC := c.Args[0].(*ssa.Const); !(isC && cst.Value == nil) {
-			// unknown initial members: contents arbitrary
-			d, _, l, _, _ := x.mapHeaps(mt)
-			x.heapHavoc(n.st, d)
+			// members = exactly the elements of the argument slice
+			d, _, l, ks, _ := x.mapHeaps(mt)
+			ds := fmt.Sprintf("(Array Ref (Array %s Bool))", ks)
+			hn, hs := x.elemHeap(mt.Key())
+			arr := x.q.define(hint+"_items", fmt.Sprintf("(Array %s %s)", x.q.intSort(), ks), sel(x.heapGet(n.st, hn, hs), "(s_arr "+args[0].S+")"))
+			nd := x.q.freshConst(hint+"_dom", fmt.Sprintf("(Array %s Bool)", ks))
+			off, ln := "(s_off "+args[0].S+")", "(s_len "+args[0].S+")"
+			// every item is a member ...
+			x.q.assert(fmt.Sprintf("(forall ((|i?new| %s)) (! (=> (and (>= |i?new| 0) (< |i?new| %s)) (select %s (select %s (+ %s |i?new|)))) :pattern ((select %s (+ %s |i?new|)))))", x.q.intSort(), ln, nd, arr, off, arr, off))
+			// ... and every member is an item (witness function)
+			wit := x.q.freshFun(hint+"_wit", []string{ks}, x.q.intSort())
+			x.q.assert(fmt.Sprintf("(forall ((|k?new| %s)) (! (=> (select %s |k?new|) (and (>= (%s |k?new|) 0) (< (%s |k?new|) %s) (= (select %s (+ %s (%s |k?new|))) |k?new|))) :pattern ((select %s |k?new|))))", ks, nd, wit, wit, ln, arr, off, wit, nd))
+			x.heapSet(n.st, d, ds, sto(x.heapGet(n.st, d, ds), r, nd))
 			x.heapHavoc(n.st, l)
+			x.trusted["sets.New(items...): the set's members are exactly the items (k8s apimachinery sets, modelled)"] = true
 		}
 		return Val{S: r, T: rt}, nil
 	})
@@ -410,7 +427,7 @@ func init() {
 	regLib(pfx+"Insert", func(x *FnExec, fr *frame, n *node, in ssa.Instruction, c *ssa.CallCommon, args []Val, reach, hint string) (Val, error) {
 		mt := mapT(c, 0)
 		if k, ok := x.constLen(c.Args[1]); ok && k <= 8 {
-			hn, hs := x.elemHeap(types.Typ[types.String])
+			hn, hs := x.elemHeap(mt.Key())
 			for j := int64(0); j < k; j++ {
 				el := sel(sel(x.heapGet(n.st, hn, hs), "(s_arr "+args[1].S+")"), x.arith("+", "(s_off "+args[1].S+")", x.ilit(j), tInt))
 				x.mapStore(n.st, mt, args[0].S, el, emptyVal(x, mt))
@@ -451,8 +468,8 @@ func init() {
 	regLib(pfx+"List", func(x *FnExec, fr *frame, n *node, in ssa.Instruction, c *ssa.CallCommon, args []Val, reach, hint string) (Val, error) {
 		mt := mapT(c, 0)
 		res := x.havocVal(hint, resultType(in, c), reach)
-		hn, hs := x.elemHeap(types.Typ[types.String])
-		arr := x.q.freshConst(hint+"_arr", fmt.Sprintf("(Array %s Str)", x.q.intSort()))
+		hn, hs := x.elemHeap(mt.Key())
+		arr := x.q.freshConst(hint+"_arr", fmt.Sprintf("(Array %s %s)", x.q.intSort(), x.q.sortOf(mt.Key())))
 		x.q.assert(eq(arr, sel(x.heapGet(n.st, hn, hs), "(s_arr "+res.S+")")))
 		d, _, _, ks, _ := x.mapHeaps(mt)
 		dom := sel(x.heapGet(n.st, d, fmt.Sprintf("(Array Ref (Array %s Bool))", ks)), args[0].S)
